@@ -332,6 +332,10 @@ def plan(tier, seed):
     specs = [dict(name="classes-%d" % i, kind="classes", classes=names[i::nsh], n=300 if tier == "quick" else 3000, tier=tier) for i in range(nsh)]
     specs.append(dict(name="schema", kind="schema"))
     specs.append(dict(name="annex-f", kind="annexf"))
+    # once more with the library's debug tracing switched on
+    for i in range(8):
+        specs.append(dict(name="tracing-%d" % i, kind="classes", classes=names[i::8], n=30 if tier == "quick" else 300, tier="quick", tracing=True))
+    specs.append(dict(name="tracing-annex-f", kind="annexf", tracing=True))
     return specs
 
 
